@@ -183,8 +183,11 @@ def main(argv=None):
         "known_finding_hits": n_known_raw,
         "repo": common.REPO,
     }
-    os.makedirs(os.path.join(common.VERIF, "evidence"), exist_ok=True)
-    evp = os.path.join(common.VERIF, "evidence", f"{pid}.json")
+    evdir = os.path.join(common.VERIF, "evidence")
+    if common.REPO != "/repo":
+        evdir = os.path.join(common.WORK, "evidence-other-tree")     # runs against scratch copies never touch evidence/
+    os.makedirs(evdir, exist_ok=True)
+    evp = os.path.join(evdir, f"{pid}.json")
     with open(evp, "w") as f:
         json.dump(ev, f, indent=1, default=repr)
         f.write("\n")
